@@ -232,7 +232,9 @@ func c20Calls(r *fw.Rand, n int) []c20Call {
 			return resStr(string(b), jerr)
 		}})
 		dd, _, _ := c17Doc(r)
-		uk, rk := gen.NewKey(r, gen.Ed25519), gen.NewKey(r, gen.P256)
+		// update / recovery keys of every type the VDR takes (secp256k1 keys go through the library's own JWK encoder)
+		ukt := fw.Pick(r, []string{gen.Ed25519, gen.P256, gen.P384, gen.Secp256k1, gen.Secp256k1})
+		uk, rk := gen.NewKey(r, ukt), gen.NewKey(r, fw.Pick(r, []string{gen.P256, gen.Secp256k1, gen.Ed25519}))
 		calls = append(calls, c20Call{"vdr", func(e *c20Env, keep keepFn) string {
 			cp := *dd
 			res, err := e.vdr.Create(&cp, vdrapi.WithOption(sidetreelongform.UpdatePublicKeyOpt, uk.Public()), vdrapi.WithOption(sidetreelongform.RecoveryPublicKeyOpt, rk.Public()))
